@@ -13,10 +13,15 @@ def power(x, y):
         return r
     x = toz3(x); y = toz3(y)
     if z3.is_int(x): x = z3.ToReal(x)
-    if z3.is_int(y): return POW(x, y)
+    if z3.is_int(y):
+        t = POW(x, y)
+        if _I[0] is not None: _I[0].assume(z3.Implies(x > 0, t > 0))      # sound fact of real exponentiation (assumed arithmetic)
+        return t
     raise Unsupported("real exponent")
+_I = [None]
 
 def install(interp, ns):
+    _I[0] = interp
     from ..interp import SymRange, EXC, Unresolved
     B = lambda f, n="": Builtin(f, n)
     def py_len(x):
